@@ -10,7 +10,10 @@ Space  : every history of <= 3 (quick) / <= 4 (thorough) messages from an 11-ent
          append_all, append_all + append_msg, append_msg + append_all); the file image cut
          at EVERY offset 0..len; on every image parse_all(), parse_all(skip, count) for
          skip in {None, 0..N+1}, count in {None, 1..N+1} and parse_msg(i), i in 0..N+1
-         (N = the tier's maximal history length).
+         (N = the tier's maximal history length).  Quick tier only: for cuts deeper than two
+         octets inside a record body the skip x count product is thinned to every skip with
+         count in {None, 1} plus every count with skip None; thorough runs the whole product
+         on every image.
 Oracle : the stored messages (plain dicts, never toolkit objects) and their end offsets;
          a message counts as stored when the file has reached the length the same call
          sequence produces for the history shortened to that message.  Result = the
@@ -326,10 +329,15 @@ def judge_op(f, op, stored, avail, where, out, case, stats):
     return True
 
 
-def ops_for(nmax):
+def ops_for(nmax, reduced=False):
+    """complete: parse_all(), the whole skip x count product, every index.
+    reduced (quick tier, cuts deep inside a record body only): every skip with count None and 1, every count
+    with skip None, every index."""
     ops = [("all", None, None, True)]
     for skip in [None] + list(range(nmax + 2)):
         for count in [None] + list(range(1, nmax + 2)):
+            if reduced and not (count is None or skip is None or count == 1):
+                continue
             ops.append(("all", skip, count, False))
     for i in range(nmax + 2):
         ops.append(("msg", i))
@@ -361,17 +369,21 @@ def evaluate_image(img, cut, stored, ends, ops, out, base_case, stats, cov):
 def new_cov():
     return {"evaluations": 0, "distinct_nontrivial": 0, "partial_record_only": 0, "images": 0, "images_uncut": 0,
             "images_in_header": 0, "images_in_body": 0, "histories": 0,
-            "call_patterns_written": 0, "call_patterns_identical_image": 0, "octets_cut": 0}
+            "call_patterns_written": 0, "call_patterns_identical_image": 0, "octets_cut": 0, "images_reduced_ops": 0}
+
+
+EDGE = 2        # body octets next to the record header / record end that always get the complete operation set
 
 
 def work(arg):
-    hist, nmax = arg
+    hist, nmax, quick = arg
     hist = list(hist)
     k = len(hist)
     out = []
     cov = new_cov()
     stats = {"idx_beyond": {}, "skip_beyond": {}, "skip_at_end": {}}
     ops = ops_for(nmax)
+    ops_reduced = ops_for(nmax, True)
     seen = {}
     cov["histories"] = 1 if k else 0
     for pname, chunks in (call_patterns(k) if k else [("empty", [])]):
@@ -393,8 +405,10 @@ def work(arg):
         # the empty history contributes the empty image, a 1-message history also offset 0 .. see run()
         first = lo + 1 if k else 0
         for cut in range(first, len(img) + 1):
-            evaluate_image(img, cut, stored, ends, ops, out, case, stats, cov)
+            deep = quick and (lo + 3 + EDGE <= cut <= len(img) - 1 - EDGE)
+            evaluate_image(img, cut, stored, ends, ops_reduced if deep else ops, out, case, stats, cov)
             cov["octets_cut"] += 1
+            cov["images_reduced_ops"] += 1 if deep else 0
     res = {"cov": cov, "viol": out[:40], "nviol_extra": max(0, len(out) - 40)}
     res["cov"]["returns_idx_beyond"] = stats["idx_beyond"]
     res["cov"]["returns_skip_beyond"] = stats["skip_beyond"]
@@ -414,25 +428,30 @@ def histories(nmax):
 
 def run(ctx):
     nmax = 3 if ctx.quick else 4
-    items = [(h, nmax) for h in histories(nmax)]
+    items = [(h, nmax, ctx.quick) for h in histories(nmax)]
     for r in ctx.pmap(work, items, chunksize=8 if ctx.quick else 32):
         ctx.merge(r)
     c = ctx.cov
     c["menu"] = NMENU
     c["max_history"] = nmax
     c["ops_per_image"] = len(ops_for(nmax))
+    c["ops_per_image_reduced"] = len(ops_for(nmax, True)) if ctx.quick else 0
     c["rule"] = ("all %d histories of <= %d messages over the %d-entry menu (header fields vary with the position), each "
                  "written by every call pattern (append_msg only / one append_all / append_all+append_msg / "
                  "append_msg+append_all); every truncation offset 0..len of every file image; on every image "
                  "parse_all(), parse_all(skip,count) for skip in {None,0..%d} x count in {None,1..%d}, parse_msg(i) for "
-                 "i in 0..%d. A truncated image is a function of its octets, and the image of h cut inside or at the end "
+                 "i in 0..%d%s. A truncated image is a function of its octets, and the image of h cut inside or at the end "
                  "of record i equals the image of h[:i] cut there (prefix stability is verified for every history and "
                  "call pattern), so each distinct image is evaluated exactly once (in the unit of the shortest history "
                  "producing it, with the index ranges of the longest); call patterns producing identical octets are "
                  "read once. evaluations = read operations executed and judged, each (image, operation) pair once; "
                  "non-trivial = the oracle expects at least one message back (compared field by field incl. all burst "
                  "bits); partial_record_only = nothing is expected but the image ends in a partial record that must be "
-                 "dropped silently" % (c["histories"], nmax, NMENU, nmax + 1, nmax + 1, nmax + 1))
+                 "dropped silently" % (c["histories"], nmax, NMENU, nmax + 1, nmax + 1, nmax + 1,
+                    (" (quick tier only: for cuts deeper than %d octets inside a record body the skip x count product is "
+                     "reduced to count in {None,1} x every skip plus every count with skip None; cuts in the header, next "
+                     "to the header, next to the record end and uncut images get the complete product)" % EDGE)
+                    if ctx.quick else ""))
     c["exhaustive"] = True
     ctx.assumptions += [
         "io.BytesIO stands for the capture file (short read at EOF, seek past EOF allowed), as in DESIGN.md",
